@@ -105,6 +105,9 @@ type scenario struct {
 	Stream  []featSpec `json:"stream"`
 	Targets int        `json:"targets"`
 	tmIDs   []int
+	// Async: the source hands the channel to a goroutine of its own and returns from ReadFeatures at once (a
+	// prefetching reader); that goroutine sends the features and closes the channel
+	Async bool
 }
 
 func (sc *scenario) build() []*feature {
@@ -216,15 +219,25 @@ func (sc *scenario) reference(ti int) []rec {
 
 // ---------- fakes ----------
 
-type fakeSource struct{ feats []*feature }
+type fakeSource struct {
+	feats []*feature
+	async bool
+}
 
 func (s *fakeSource) ReadFeatures(ch chan<- processing.Feature) {
-	for _, f := range s.feats {
-		vsrt.Pre(vsrt.KSend, ch)
-		ch <- f
+	send := func() {
+		for _, f := range s.feats {
+			vsrt.Pre(vsrt.KSend, ch)
+			ch <- f
+		}
+		vsrt.Pre(vsrt.KClose, ch)
+		close(ch)
 	}
-	vsrt.Pre(vsrt.KClose, ch)
-	close(ch)
+	if s.async {
+		vsrt.Go("asyncReader", send)
+		return
+	}
+	send()
 }
 
 type fakeTarget struct {
@@ -279,7 +292,7 @@ func execute(sc *scenario, prefix []int, slow bool) *outcome {
 		o.targets = append(o.targets, t)
 		tm[id] = t
 	}
-	src := &fakeSource{feats: sc.build()}
+	src := &fakeSource{feats: sc.build(), async: sc.Async}
 	body := func() {
 		processing.ProcessFeatures(src, tm, sc.snapFunc(slow))
 		sched.Yield("returned")
@@ -556,6 +569,7 @@ type scope struct {
 	Slow    bool
 	Strict  bool // every non-default alternative is a deviation (not only preemptions / map orders)
 	IDs     []int // tile matrix ids of the targets (ascending); default tmIDsFor(Targets)
+	Async   bool  // source with a goroutine of its own (see scenario.Async)
 }
 
 func (sc scope) ids() []int {
@@ -566,7 +580,7 @@ func (sc scope) ids() []int {
 }
 
 func tmIDsFor(n int) []int {
-	ids := []int{3, 5, 8, 11, 14}
+	ids := []int{3, 5, 8, 11, 14, 15, 16, 17, 18, 19, 20, 21}
 	return ids[:n]
 }
 
@@ -603,6 +617,8 @@ func scopesC10(thorough bool) []scope {
 		// other id sets: id 0 (the zero value of an id) and a negative id (CDB1GlobalGrid has them) among the targets
 		{Name: "ids {0,7}: N=2 len<=2 full alphabet, <=1 deviation", Targets: 2, IDs: []int{0, 7}, Streams: streams(alphabet(2, true), 2), Bound: 1, Strict: true},
 		{Name: "ids {-3,0,4}: N=3 len<=2 reduced alphabet, default schedule", Targets: 3, IDs: []int{-3, 0, 4}, Streams: streams(alphabet(3, false), 2), Bound: 0, Strict: true},
+		// many targets, a table longer than any plausible buffer (one execution each)
+		{Name: "L=130 N=9 default schedule", Targets: 9, Streams: longStreams(9, 130), Bound: 0, Strict: true},
 	}
 }
 
@@ -662,6 +678,10 @@ func scopesC11(thorough bool) []scope {
 			{Name: "L<=1 N=5 <=1 preemption", Targets: 5, Streams: c11Streams(5, 1), Bound: 1},
 			{Name: "L=40 N=1 <=2 deviations", Targets: 1, Streams: longStreams(1, 40), Bound: 2, Strict: true},
 			{Name: "L=40 N=3 <=1 deviation", Targets: 3, Streams: longStreams(3, 40), Bound: 1, Strict: true},
+			{Name: "async source: L<=3 N=1 all schedules", Targets: 1, Streams: c11Streams(1, 3), Bound: -1, Slow: true, Async: true},
+			{Name: "async source: L<=2 N=2 <=2 preemptions", Targets: 2, Streams: c11Streams(2, 2), Bound: 2, Slow: true, Async: true},
+			{Name: "L=130 N=9 default schedule", Targets: 9, Streams: longStreams(9, 130), Bound: 0, Strict: true},
+			{Name: "L=260 N=12 default schedule", Targets: 12, Streams: longStreams(12, 260)[:1], Bound: 0, Strict: true},
 			{Name: "L=4 N=3 <=1 preemption", Targets: 3, Streams: c11Streams(3, 4), Bound: 1},
 			{Name: "L<=3 N=3 <=1 preemption", Targets: 3, Streams: c11Streams(3, 3), Bound: 1},
 			// largest scopes last: the deadline cuts only these short (the evidence says how far they got)
@@ -680,6 +700,13 @@ func scopesC11(thorough bool) []scope {
 		// long streams (a target lagging behind by more than a typical buffer), few deviations
 		{Name: "L=20 N=1 <=1 deviation", Targets: 1, Streams: longStreams(1, 20), Bound: 1, Strict: true},
 		{Name: "L=20 N=2 default schedule", Targets: 2, Streams: longStreams(2, 20), Bound: 0, Strict: true},
+		// a source that hands its channel to a goroutine of its own and returns from ReadFeatures at once
+		{Name: "async source: L<=2 N=1 all schedules", Targets: 1, Streams: c11Streams(1, 2), Bound: -1, Slow: true, Async: true},
+		{Name: "async source: L<=2 N=2 <=1 preemption", Targets: 2, Streams: c11Streams(2, 2), Bound: 1, Slow: true, Async: true},
+		// many targets and a table longer than any plausible buffer: one execution (a pool of writers smaller than the
+		// number of targets, or a bounded backlog, shows as a deadlock on the default schedule already)
+		{Name: "L=130 N=9 default schedule", Targets: 9, Streams: longStreams(9, 130), Bound: 0, Strict: true},
+		{Name: "L=260 N=12 default schedule", Targets: 12, Streams: longStreams(12, 260)[:1], Bound: 0, Strict: true},
 	}
 }
 
@@ -713,6 +740,7 @@ type replayCase struct {
 	Stream  []featSpec `json:"stream"`
 	Targets int        `json:"targets"`
 	IDs     []int      `json:"tile_matrix_ids,omitempty"`
+	Async   bool       `json:"async_source,omitempty"`
 	Slow    bool       `json:"slow_snapping"`
 	Choices []int      `json:"choices"`
 	Trace   []string   `json:"trace"`
@@ -772,7 +800,7 @@ func main() {
 					rep.Exhaustive = false
 					break
 				}
-				scn := &scenario{Stream: stream, Targets: sc.Targets, tmIDs: sc.ids()}
+				scn := &scenario{Stream: stream, Targets: sc.Targets, tmIDs: sc.ids(), Async: sc.Async}
 				rep.Scenarios++
 				perScenario := map[string]bool{}
 				reported := map[string]bool{}
@@ -801,7 +829,7 @@ func main() {
 						reported[p.Sig] = true
 						confirmReplay(scn, choices, sc.Slow, id, p.Sig)
 						r.Violation(p.Sig, fmt.Sprintf("stream %v, %d targets: %s", stream, sc.Targets, p.What),
-							replayCase{Scope: sc.Name, Stream: stream, Targets: sc.Targets, IDs: sc.ids(), Slow: sc.Slow, Choices: choices, Trace: o.x.Trace, Problem: p.What})
+							replayCase{Scope: sc.Name, Stream: stream, Targets: sc.Targets, IDs: sc.ids(), Async: sc.Async, Slow: sc.Slow, Choices: choices, Trace: o.x.Trace, Problem: p.What})
 					}
 					return true
 				}
@@ -958,6 +986,7 @@ func replay(r *ev.Run, id, path string) {
 	if len(c.IDs) > 0 {
 		scn.tmIDs = c.IDs
 	}
+	scn.Async = c.Async
 	o := execute(scn, c.Choices, c.Slow)
 	if o.x.Harness != "" {
 		ev.HarnessError("%s", o.x.Harness)
